@@ -811,9 +811,30 @@ func (x *X) makeSlice(fr *frame, in *ssa.MakeSlice) Val {
 type Iter struct {
 	Cell *Cell
 	Str  string
+	Map  string     // map iteration: reference of the map
+	MapT *types.Map // map iteration: its type
 }
 
 func (x *X) rangeInit(fr *frame, in *ssa.Range) Val {
+	if mt, ok := in.X.Type().Underlying().(*types.Map); ok {
+		// range over a map: the order is arbitrary; a ghost set records the keys already visited
+		if x.mode == modeSummary {
+			unsup("range over map in a pure summary")
+		}
+		if k := kindOf(mt.Key()); k != kInt && k != kString && k != kBool {
+			unsup("range over map with composite keys")
+		}
+		x.cellN++
+		c := &Cell{id: x.cellN, name: "rangeseen", typ: mt}
+		ks := x.leafSort(mt.Key())
+		x.st.cells[c] = S{fmt.Sprintf("((as const (Array %s Bool)) false)", ks), "(Array " + ks + " Bool)"}
+		if fr.iters == nil {
+			fr.iters = map[*ssa.Range]Iter{}
+		}
+		it := Iter{Cell: c, Map: x.get(fr, in.X).(MapV).Ref, MapT: mt}
+		fr.iters[in] = it
+		return it
+	}
 	if kindOf(in.X.Type()) != kString {
 		unsup("range over %s", in.X.Type())
 	}
@@ -835,6 +856,23 @@ func (x *X) rangeInit(fr *frame, in *ssa.Range) Val {
 // 1 for ASCII and 1..4 otherwise, never running past the end.
 func (x *X) rangeNext(fr *frame, in *ssa.Next) Val {
 	it, ok := x.get(fr, in.Iter).(Iter)
+	if ok && !in.IsString && it.MapT != nil {
+		mt := it.MapT
+		ks := x.leafSort(mt.Key())
+		seen := x.st.cells[it.Cell].(S)
+		k := x.freshVal(mt.Key(), "rangekey")
+		kt := k.(S).T
+		okT := x.fresh("rng.ok", SBool)
+		has := x.mapHas(mt, it.Map, k)
+		x.assume(implies(okT, and(has, not("(select "+seen.T+" "+kt+")"))))
+		// when the iteration ends every key has been visited
+		hk := x.mapLoc(mt, it.Map, k)
+		hasArr := x.heapCur(hk.key+"#mhas", heapSortFor(hk, SBool))
+		x.sc.Assert(implies(and(x.st.cond, not(okT)), fmt.Sprintf("(forall ((q %s)) (! (=> (select (select %s %s) q) (select %s q)) :pattern ((select %s q))))", ks, hasArr, it.Map, seen.T, seen.T)))
+		v := x.loadAt(hk, mt.Elem())
+		x.st.cells[it.Cell] = S{x.define("rng.seen", seen.Sort, ite(okT, "(store "+seen.T+" "+kt+" true)", seen.T)), seen.Sort}
+		return Tup{E: []Val{S{okT, SBool}, k, v}}
+	}
 	if !ok || !in.IsString {
 		unsup("range next over a map")
 	}
